@@ -222,7 +222,7 @@ def ob_fragment_valid(pid, entries):
                     "no exception, no out-of-bounds access", "first %d bytes of both sectors symbolic" % (8 + 8 * entries),
                     ["dfs/dfs_catalog.cc:CatalogFragment::valid", "get_safe_name", "CatalogEntry::last_sector"], unwind=14,
                     unwindset=[("h_fragment_valid.0", 258), ("h_fragment_valid.1", 258), ("CatalogFragmentC2", max(entries + 2, 10)), ("realloc_insert", entries + 2),
-                               ("CatalogFragment5valid", entries + 2), ("X_strlen", 64), ("X_mem", 16), ("vf_ostream3num", 24)],
+                               ("CatalogFragment5valid", 14), ("X_strlen", 64), ("X_mem", 16), ("vf_ostream3num", 24)],
                     defines=("NDEBUG", "FRAG_ENTRIES=%d" % entries), weight_gb=8, noop_re=[r"get_safe_name"] + IO_CUT)
 def ob_opus_catalogue(pid):
     return X.cxx_ob(pid, "opus_catalogue", W_ID, "h_opus_catalogue", "OpusDiscCatalogue on an arbitrary sector 16: either BadFileSystem or volumes sorted, "
@@ -232,7 +232,7 @@ def ob_opus_catalogue(pid):
 
 @prop("C07")
 def c07(tier):
-    obs = [ob_hxc_header("C07"), ob_hxc_track_list("C07", 3 if tier == "quick" else 5), ob_fragment_valid("C07", 2 if tier == "quick" else 4),
+    obs = [ob_hxc_header("C07"), ob_hxc_track_list("C07", 2 if tier == "quick" else 3), ob_fragment_valid("C07", 2 if tier == "quick" else 4),
            ob_opus_catalogue("C07"), ob_fileview("C07", 0), ob_fileview("C07", 10), ob_fileview_far("C07"), ob_blockwise("C07"), ob_watford("C07"),
            ob_hfe_header("C07"), ob_copy_hfe("C07", 5), ob_zlib_error_code("C07")]
     return obs, dict(assumptions=CXX_ASSUME + ["C07 is claimed per parsing kernel with the file modelled as an arbitrary buffer; whole-program runs, getopt and the "
@@ -251,31 +251,34 @@ def ob_zlib_error_code(pid):
 def c10(tier):
     return [ob_decompressed_read("C10"), ob_zlib_error_code("C10")], dict(assumptions=CXX_ASSUME + ["zlib itself and the operating system are trusted; the inflate loop protocol is not encoded"])
 
+MOUNT_STUB = "_ZNK3DFS20StorageConfiguration5mountERKNS_14VolumeSelectorE=stub_mount"
 W_CMDS = "w_cmds.cc"
 W_EXTRACT = "w_extract.cc"
-CMD_UNWIND = [("X_strlen", 64), ("X_mem", 16), ("vf_ostream3num", 24), ("make_disc", 4), ("cout_num", 200), ("realloc_insert", 6), ("vf_rb", 6), ("Rb_tree", 6)]
+CMD_UNWIND = [("collect_nums", 200), ("h_cmd_free.0", 200), ("h_cmd_space.0", 200), ("h_cmd_free", 12), ("h_cmd_space", 12), ("X_strlen", 64), ("X_mem", 16), ("vf_ostream3num", 24), ("make_disc", 4), ("cout_num", 200), ("realloc_insert", 6), ("vf_rb", 6), ("Rb_tree", 6)]
 def ob_cmd_free(pid, entries=2):
     return X.cxx_ob(pid, "cmd_free.E%d" % entries, W_CMDS, "h_cmd_free", "CommandFree::invoke on an in-memory Acorn DFS drive with a symbolic well-formed catalogue: "
                     "prints free/used files, sectors (hex) and bytes with used = max(catalogue sectors, highest file end)",
-                    "<= %d catalogue entries with symbolic start/length (non-overlapping, descending), total sectors 3..800" % entries,
+                    "exactly %d catalogue entries (constant per query) with symbolic start/length (non-overlapping, descending), total sectors 3..800" % entries,
                     ["dfs/cmd_free.cc:CommandFree::invoke", "dfs/storage.cc:StorageConfiguration::mount", "mount_fs", "connect_drives", "dfs/dfs_filesystem.cc:FileSystem::FileSystem",
                      "dfs/dfs_volume.cc:init_volumes", "Volume::Volume", "dfs/dfs_catalog.cc:Catalog::Catalog", "Catalog::entries"],
-                    unwind=8, unwindset=CMD_UNWIND, defines=("NDEBUG", "CMD_ENTRIES=%d" % entries), weight_gb=10, timeout=1500, noop_re=EXC_CTORS)
+                    unwind=8, unwindset=CMD_UNWIND, defines=("NDEBUG", "CMD_ENTRIES=%d" % entries), weight_gb=10, timeout=1500, noop_re=EXC_CTORS, replace=[MOUNT_STUB])
 def ob_cmd_space(pid, entries=2):
     return X.cxx_ob(pid, "cmd_space.E%d" % entries, W_CMDS, "h_cmd_space", "CommandSpace::invoke on the same drive: lists exactly the maximal runs of unallocated sectors in disc order "
                     "and their sum = total - catalogue - file sectors", "<= %d entries as cmd_free" % entries,
                     ["dfs/cmd_space.cc:CommandSpace::invoke", "select_volumes", "Catalog::get_catalog_in_disc_order"],
-                    unwind=8, unwindset=CMD_UNWIND, defines=("NDEBUG", "CMD_ENTRIES=%d" % entries), weight_gb=10, timeout=1500, noop_re=EXC_CTORS)
+                    unwind=8, unwindset=CMD_UNWIND, defines=("NDEBUG", "CMD_ENTRIES=%d" % entries), weight_gb=12, timeout=1500,
+                    noop_re=EXC_CTORS + [r"^_ZNSt6vectorIjSaIjEE17_M_realloc_insertIJRKjEEE"], replace=[MOUNT_STUB],
+                    stubs=["std::vector<unsigned>::_M_realloc_insert replaced by a fixed-capacity model (stubs/vf_stubs.c)"])
 @prop("C14")
 def c14(tier):
-    e = 2 if tier == "quick" else 3
-    return [ob_cmd_free("C14", e), ob_cmd_space("C14", e)], dict(assumptions=CXX_ASSUME)
+    es = (0, 2) if tier == "quick" else (0, 1, 2, 3)
+    return [ob_cmd_free("C14", e) for e in es] + [ob_cmd_space("C14", e) for e in es], dict(assumptions=CXX_ASSUME)
 
 def ob_extract_paths(pid):
     return X.cxx_ob(pid, "extract_paths", W_EXTRACT, "h_extract_paths", "CommandExtractFiles::invoke on an in-memory drive with one catalogued file whose 8 name/directory bytes are arbitrary: "
                     "every host file opened lies directly inside the destination directory", "7 name bytes + directory byte symbolic, destination with/without trailing slash",
                     ["dfs/cmd_extract_files.cc:CommandExtractFiles::invoke", "create_inf_file", "CatalogEntry::name", "stringutil::rtrim"],
-                    unwind=10, unwindset=CMD_UNWIND + [("h_extract_paths", 20)], weight_gb=10, timeout=1500, noop_re=EXC_CTORS,
+                    unwind=10, unwindset=CMD_UNWIND + [("h_extract_paths", 20)], weight_gb=10, timeout=1500, noop_re=EXC_CTORS, replace=[MOUNT_STUB],
                     stubs=["std::ofstream modelled by harness/cxx/iomodel.h (records the path of every file opened)"])
 @prop("C12")
 def c12(tier):
@@ -318,12 +321,18 @@ def ob_fileview_far(pid):
 def ob_blockwise(pid):
     return X.cxx_ob(pid, "blockwise", W_IMG, "h_blockwise", "FilePresentedBlockwise::read_block(n) reads 256 bytes at byte offset 256n; a short read yields no sector",
                     "file size and sector number 32-bit symbolic, one symbolic probe byte", ["dfs/img_sdf.cc:FilePresentedBlockwise::read_block"], unwind=6, weight_gb=4)
+def ob_mmb_views(pid):
+    return X.cxx_ob(pid, "mmb_views", W_IMG, "h_mmb_views", "MmbFile constructor on a slot table with symbolic status bytes: slot k is usable iff its status is 0x00/0x0F and then "
+                    "starts 32 + 800k sectors into the file (8192 + 204800k bytes), 800 contiguous sectors", "status bytes of slots 0..3 symbolic, slots 4..510 read-write; checked slot symbolic in 0..4",
+                    ["dfs/img_mmb.cc:MmbFile::MmbFile", "dfs/img_sdf.cc:ViewFile::add_view", "FilePresentedBlockwise::read_block", "FileView::unformatted_device"],
+                    unwind=18, unwindset=[("MmbFileC2", 34), ("X_strlen", 64), ("realloc_insert", 520), ("relocate", 520), ("Destroy", 520), ("MmbTable4read", 18), ("uninit", 520)],
+                    weight_gb=12, timeout=1500, noop_re=IO_CUT + EXC_CTORS, replace=["_ZN3DFS8ViewFile8add_viewERKNS_8internal8FileViewE=stub_add_view"])
 TAKES_QUICK = [0, 10, 18, 800]
 TAKES_ALL = [0, 10, 16, 18, 350, 400, 560, 630, 640, 720, 800, 1280, 1440]
 
 @prop("C04")
 def c04(tier):
-    obs = [ob_fileview("C04", t) for t in (TAKES_QUICK if tier == "quick" else TAKES_ALL)] + [ob_fileview_far("C04"), ob_blockwise("C04")]
+    obs = [ob_fileview("C04", t) for t in (TAKES_QUICK if tier == "quick" else TAKES_ALL)] + [ob_fileview_far("C04"), ob_blockwise("C04"), ob_mmb_views("C04")]
     return obs, dict(assumptions=CXX_ASSUME)
 
 @prop("C01")
